@@ -228,6 +228,15 @@ class MonitorPool(Module):
             if oname in self.monitors_
         )
 
+    def _aliased(self, monitor: Monitor, observed: str) -> bool:
+        r"""Tests if a monitor is also used by an observable other than the one given."""
+        return any(
+            m is monitor
+            for o, md in self.monitors_.items()
+            if o != observed
+            for m in md.values()
+        )
+
     def add_observed(self, name: str, value: Observable) -> Observable:
         r"""Adds an observable.
 
@@ -281,7 +290,8 @@ class MonitorPool(Module):
         """
         if name in self.monitors_:
             for monitor in self.monitors_[name].values():
-                monitor.deregister()
+                if not self._aliased(monitor, name):
+                    monitor.deregister()
             del self.monitors_[name]
 
         if name in self.observed_:
@@ -382,8 +392,9 @@ class MonitorPool(Module):
                 f"observable with name '{observed}'"
             )
 
-        # delete the monitor
-        self.monitors_[observed][monitor].deregister()
+        # delete the monitor, only deregistering it when no other observable uses it
+        if not self._aliased(self.monitors_[observed][monitor], observed):
+            self.monitors_[observed][monitor].deregister()
         del self.monitors_[observed][monitor]
 
         # delete group if empty
